@@ -222,6 +222,9 @@ enum KeyFingerprint {
     Sequence(Vec<KeyFingerprint>),
     /// Mapping fingerprint (ordered list of `(key, value)` fingerprints).
     Mapping(Vec<(KeyFingerprint, KeyFingerprint)>),
+    /// A scalar or sequence that carries an application tag (`SfTag::Other`): the tag text is
+    /// part of the node, `!a x` and `!b x` are different keys.
+    Tagged(String, Box<KeyFingerprint>),
     /// Should not be used, arises after taking the value away
     #[default]
     Default,
@@ -245,7 +248,16 @@ impl KeyFingerprint {
                     None
                 }
             }
+            KeyFingerprint::Tagged(_, inner) => inner.stringy_scalar_value(),
             _ => None,
+        }
+    }
+
+    /// Add the text of an application tag to the fingerprint of the node that carries it.
+    fn with_custom_tag(self, tag: SfTag, raw_tag: Option<&str>) -> Self {
+        match raw_tag {
+            Some(raw) if tag == SfTag::Other => KeyFingerprint::Tagged(raw.to_owned(), Box::new(self)),
+            _ => self,
         }
     }
 }
@@ -273,11 +285,20 @@ impl<'a> KeyNode<'a> {
         match self {
             KeyNode::Fingerprinted { fingerprint, .. } => Cow::Borrowed(fingerprint),
             KeyNode::Scalar { events, .. } => {
-                if let Some(Ev::Scalar { tag, value, .. }) = events.first() {
-                    Cow::Owned(KeyFingerprint::Scalar {
-                        tag: *tag,
-                        value: value.to_string(),
-                    })
+                if let Some(Ev::Scalar {
+                    tag,
+                    raw_tag,
+                    value,
+                    ..
+                }) = events.first()
+                {
+                    Cow::Owned(
+                        KeyFingerprint::Scalar {
+                            tag: *tag,
+                            value: value.to_string(),
+                        }
+                        .with_custom_tag(*tag, raw_tag.as_deref()),
+                    )
                 } else {
                     unreachable!()
                 }
@@ -461,6 +482,7 @@ fn capture_node<'a>(ev: &mut dyn Events<'a>) -> Result<KeyNode<'a>, Error> {
             raw_tag,
             location,
         } => {
+            let custom_tag = raw_tag.as_ref().map(|t| t.to_string());
             let mut events = vec![Ev::SeqStart {
                 anchor,
                 tag,
@@ -490,7 +512,8 @@ fn capture_node<'a>(ev: &mut dyn Events<'a>) -> Result<KeyNode<'a>, Error> {
                 }
             }
             Ok(KeyNode::Fingerprinted {
-                fingerprint: KeyFingerprint::Sequence(elements),
+                fingerprint: KeyFingerprint::Sequence(elements)
+                    .with_custom_tag(tag, custom_tag.as_deref()),
                 events,
                 location,
             })
